@@ -41,6 +41,11 @@ def payloads(rng, tier):
     out.append(("rpc-otherprog", gens.rpc_call(xid=0xa1b2c3d4, prog=100005, vers=3, proc=1)))
     out.append(("rpc-tcp-dump", gens.rpc_call(xid=0xa1b2c3d4, vers=3, proc=4, tcp=True)))
     out.append(("rpc-tcp-getport", gens.rpc_call(xid=0xa1b2c3d4, vers=2, proc=3, tcp=True)))
+    # polyglots: one payload that is a valid request of TWO protocols (signature dispatch must win everywhere,
+    # also on the "natural" port of the other protocol)
+    out.append(("polyglot-stun3489-dns", bytes.fromhex("0001000000010000000000000261620000010001")))
+    out.append(("polyglot-stun3489-dns-2", bytes.fromhex("00010000000100000000000003777777" "0000010001")[:20]))
+    out.append(("polyglot-stun-magic-dns", bytes.fromhex("000100002112a442") + b"\0" * 12))
     out.append(("dns-3q", gens.dns_query(names=(b"a.b", b"c.d.e", b"x"))))
     out.append(("dns-txt", gens.dns_query(qtype=16)))
     out.append(("http-post", gens.http_req(verb=b"POST", target=b"/x?y=z", headers=[(b"A", b"b")])))
